@@ -1,5 +1,7 @@
 package main
 
+import "fmt"
+
 const (
 	commitlogGo = "server/commitlog/commitlog.go"
 	segmentGo   = "server/commitlog/segment.go"
@@ -38,5 +40,8 @@ func genLog() *leanFile {
 	l.cmp("occBatchCmp", msgsetGo, "newMessageSetFromProto", "len(msgs) ? 1", 0, "gt")
 	l.cmp("entriesMinCmp", msgsetGo, "entriesForMessageSet", "len(ms) ? msgSetHeaderLen", 0, "le")
 	l.cmp("readerBeyondHWCmp", readerGo, "commitLog.newReaderCommitted", "offset ? hw", 0, "gt")
+	// getHWPos: when the message at the HW is no longer retained, the first entry after it is not committed
+	gone := anyHas(condTexts(readerGo, "getHWPos"), "hwEntry.Offset > hw")
+	l.def("hwGoneCheck", "Bool", fmt.Sprint(gone), "if hwEntry.Offset > hw { return hwIdx, hwEntry.Position, nil }")
 	return l
 }
